@@ -11,6 +11,7 @@ import Driver.Tx
 import Driver.Dev
 import Driver.Lint
 import Driver.Diff
+import Driver.HclType
 open Lean
 
 def dispatch (j : Json) : Json :=
@@ -31,6 +32,7 @@ def dispatch (j : Json) : Json :=
   | "dev.run" => Driver.handleDevRun j
   | "lint.analyze" => Driver.handleLintAnalyze j
   | "diff.schema" => Driver.handleDiffSchema j
+  | "hcltype.convert" => Driver.handleHclTypeConvert j
   | "h1" => Json.mkObj [("h", Atlas.Base.h1 (Driver.unhex (Driver.str j "hex")))]
   | op => Json.mkObj [("err", s!"unknown-op:{op}")]
 
